@@ -171,7 +171,11 @@ def monitorMsg (st : St) (m : Msg) : Option String :=
   (recClause (m.toRec st.tr)).map fun
     | .ranTwice _ n => s!"C03: the handler of message {m.id} ({m.meth}) ran {n} times"
     | .neverSent _ => s!"C03: message {m.id} ({m.meth}) was handled but never sent"
-    | .f14NotDispatched _ => s!"C03: F14 notification acknowledged (202) on a stateless streamable server but never dispatched (message {m.id}, {m.meth})"
+    | .f14NotDispatched _ =>
+      if m.body != 0 then
+        s!"C03: sessionless-body-drop: a notification that travelled in a POST body with other messages (JSON-RPC batch) was accepted by a sessionless streamable server — the POST was answered — but never dispatched (message {m.id}, {m.meth})"
+      else
+        s!"C03: F14 notification acknowledged (202) on a stateless streamable server but never dispatched (message {m.id}, {m.meth})"
     | .notHandled _ => s!"C03: message {m.id} ({m.meth}) was sent without error but its handler never ran to completion"
     | _ => "C03: ?"
 
